@@ -239,11 +239,19 @@ class Driver:
         if srv is not None and srv.bp is not None:
             srv.bp.force_flush_arg = bool(op.get('full', True))
 
+    def sync_limit(self, limit=None):
+        """The catch-up bound grows with the work that may be left: every block to be fetched costs a few
+        daemon round trips of up to the configured maximum latency each (prefetch may be 1)."""
+        w = self.w
+        lat = max(w.k['daemon_latency'][1], 0.0) if w.k.get('daemon_latency') else 0.0
+        self.last_sync_limit = (limit or self.SYNC_LIMIT) + (w.daemon.height + 1) * 8 * lat
+        return self.last_sync_limit
+
     def quiesce(self, limit=None):
         """Fault-free tail: freeze the daemon, stop faults, let the server catch up.  Restarts a
         dead server like a supervisor would.  Returns True when caught up within the window."""
         w = self.w
-        limit = limit or self.SYNC_LIMIT
+        limit = self.sync_limit(limit)
         w.faults.enabled = False
         w.faults.script = []
         w.sim.stall_p = 0.0          # a stalled disk is a fault too
@@ -308,7 +316,7 @@ class Driver:
             srv = self.w.server
             h = srv.db.state.height if srv and srv.db and srv.db.state else None
             self.violate(self.LIVENESS_PROP, 'liveness.catchup',
-                         f'not caught up within {op.get("limit") or self.SYNC_LIMIT} virtual s: '
+                         f'not caught up within {self.last_sync_limit:.0f} virtual s: '
                          f'db height {h} daemon {self.w.daemon.height} exits {self.w.server_exits[-3:]} '
                          f'state {self.w.why_not_caught_up()}')
             return
